@@ -166,6 +166,15 @@ func (p *parsing) inFunction() bool {
 // closed.
 func (p *parsing) next() token {
 	tok, ok := <-p.lex.Tokens()
+	if verifOn {
+		if ok {
+			verifLex(p.lex, 1, "recv", int(tok.typ))
+		} else if p.lex.err != nil {
+			verifLex(p.lex, 1, "recv-closed", 1)
+		} else {
+			verifLex(p.lex, 1, "recv-closed", 0)
+		}
+	}
 	if !ok {
 		if p.lex.err == nil {
 			panic("next called after EOF")
